@@ -86,11 +86,15 @@ Definition suffixed_ok (d : db) (g : rgroup) (p : Z) : bool :=
    through the root of the tree *)
 Definition agg_via_root (d : db) (R p : Z) (ags : list Z) : bool :=
   in_some_agg d p ags || ((root_of d p =? R) && in_some_agg d R ags).
+(* member_of (the conjunction of all its values) is met by the provider itself, or - for a provider of the
+   anchor tree - by the root of the tree *)
+Definition member_of_via_root (d : db) (R p : Z) (mo : list (list Z)) : bool :=
+  forallb (in_some_agg d p) mo || ((root_of d p =? R) && forallb (in_some_agg d R) mo).
 (* one provider of the unsuffixed group, for one resource *)
 Definition un_slot_ok (d : db) (g : rgroup) (R : Z) (x : Z * Z) (p : Z) : bool :=
   has_room d p (fst x) (snd x)
   && negb (has_some_trait d p (g_forbidden g))
-  && forallb (agg_via_root d R p) (g_member_of g) && negb (agg_via_root d R p (g_forbidden_aggs g))
+  && member_of_via_root d R p (g_member_of g) && negb (agg_via_root d R p (g_forbidden_aggs g))
   && in_tree_ok d g p.
 
 (* every assignment whose slots are individually acceptable *)
@@ -170,3 +174,26 @@ Definition spec_check (v : Z) (model : cand_result) (spec : list creq) : Z :=
                if subset_by same_creq a s && subset_by same_creq s a then 0 else 5
   | _ => 6
   end.
+
+(* ---------------------------------------------------------------- the property for ONE combination *)
+(* p is an existing provider that an allocation request anchored at R may use *)
+Definition usable (d : db) (R p : Z) : Prop := In p (map rp_uuid (rps d)) /\ avail d R p = true.
+
+(* The assignment is admissible: its anchor is the root of a tree; every resource of the unsuffixed group is
+   placed on a usable provider acceptable for it (un_slot_ok); every suffixed group is placed on ONE usable
+   provider acceptable for the whole group (suffixed_ok); and the conditions between the slots hold (asg_ok:
+   root_required, collective required traits, group_policy, same_subtree, capacity and max_unit of the summed
+   amounts, one provider per tree before 1.29). *)
+Definition admissible (v : Z) (q : query) (d : db) (a : assignment) : Prop :=
+  In (as_anchor a) (tree_roots d) /\
+  match unsuffixed_group q with
+  | Some g => Forall2 (fun p x => usable d (as_anchor a) p /\ un_slot_ok d g (as_anchor a) x p = true)
+                      (as_un a) (g_resources g)
+  | None => as_un a = []
+  end /\
+  Forall2 (fun p g => usable d (as_anchor a) p /\ suffixed_ok d g p = true) (as_suff a) (suffixed_groups q) /\
+  asg_ok v q d a = true.
+
+(* c is a valid allocation candidate for q: it is what some admissible assignment denotes *)
+Definition valid (v : Z) (q : query) (d : db) (c : creq) : Prop :=
+  exists a, admissible v q d a /\ c = creq_of q a.
